@@ -13,7 +13,7 @@ from .. import refgeo as rg
 from leuvenmapmatching.util import dist_latlon as dl
 
 ID = "C14"
-CASES = {"quick": 60000, "thorough": 1200000}
+CASES = {"quick": 300000, "thorough": 3000000}
 MIN_CASES_PER_SHARD = 400
 CASE_TIMEOUT = 10
 R = rg.R
